@@ -203,6 +203,13 @@ func c07Cmp(a, b any) (int, bool) {
 // c07RowCmp compares two rows under the ORDER BY key list (DESC inverts).
 func c07RowCmp(keys []c07Key, a, b Row) (int, bool) {
 	for _, k := range keys {
+		if fa, ok1 := toF(a[k.Col]); ok1 {
+			if fb, ok2 := toF(b[k.Col]); ok2 && fa != fb && feq(fa, fb) {
+				// equal up to float rounding but not bit for bit (0.2833333333333333 vs 0.2833333333333334): whether
+				// this key decides or the next one does depends on the order of floating-point operations
+				return 0, false
+			}
+		}
 		x, ok := c07Cmp(a[k.Col], b[k.Col])
 		if !ok {
 			return 0, false
